@@ -79,6 +79,7 @@ def run(chk, prog):
     from . import C17
 
     tmp = Check("C17", chk.tier, chk.seed, write_evidence=False)
+    tmp.nested = True
     C17.run(tmp, prog)
     viol = {(v["rule"], v["instance"]): v for v in tmp.violations}
     n17 = 0
